@@ -31,6 +31,8 @@ for p in props:
             floor = None
         except AnalysisError as e:
             floor = str(e)
+        if R.analysis_errors and not floor:
+            floor = "; ".join(R.analysis_errors[:2])
         rc = 1 if new else (2 if floor else 0)
         if rc:
             print("%s rc=%d" % (p, rc))
